@@ -13,6 +13,7 @@ import Sebuf.DriverC20
 import Sebuf.DriverC07
 import Sebuf.DriverC17
 import Sebuf.DriverC19
+import Sebuf.DriverC08
 namespace Sebuf.DriverOps
 def dispatch (op : String) (j : Lean.Json) : Lean.Json :=
   match op with
@@ -48,5 +49,8 @@ def dispatch (op : String) (j : Lean.Json) : Lean.Json :=
   | "c19_case" => Sebuf.Driver.opC19Case j
   | "c19_required" => Sebuf.Driver.opC19Required j
   | "c19_yaml" => Sebuf.Driver.opC19Yaml j
+  | "c08_case" => Sebuf.Driver.opC08Case j
+  | "ts_header_check" => Sebuf.Driver.opTsHeaderCheck j
+  | "ts_extract" => Sebuf.Driver.opTsExtract j
   | _ => Lean.Json.mkObj [("driver_err", Lean.Json.str ("unknown op " ++ op))]
 end Sebuf.DriverOps
